@@ -233,6 +233,27 @@ def run(ctx):
         ctx.ob('STALE-FRAMES', row[1], ok, g.loc(g.body), 'write-open of %s: sf.frames %s' % (row[1], 'is reset on the open path' if ok else 'is NEVER assigned on the write-open path (caller value would reach the header)'), None)
 
 
+    # ------------------------------------------------------------------ CLOSE-APPEND
+    ctx.rule('CLOSE-APPEND', 'a container close hook that itself appends bytes after the audio (a terminator, written with psf_fwrite / psf_binheader_writef) before it calls write_header (psf, SF_TRUE) '
+             'first records the end of the audio in psf->dataend: the header writer derives the data length from the file length minus what follows dataend, so an unrecorded terminator byte '
+             'is counted as audio (VOC: one frame too many for every 1-byte mono encoding)', floor=1)
+    n_ca = 0
+    tgc = prog.slots.get(('sf_private_tag', 'container_close'), {})
+    for name in sorted(tgc):
+        if name in ('NULL', '?') or name.startswith('@'):
+            continue
+        for f in prog.fns.get(name, []):
+            ws = [c for c in f.calls() if c.get('callee') in ('psf_fwrite', 'psf_binheader_writef')]
+            if not ws:
+                continue
+            n_ca += 1
+            first = min(ws, key=lambda c: (c['l'], c['c']))
+            sets_ = [a for lv, a, r in assigned_lvalues(f) if lv == 'psf->dataend']
+            ok = any(f.cfg.dominates(a, first) for a in sets_)
+            ctx.ob('CLOSE-APPEND', name, ok, f.loc(first), 'bytes appended at close %s' % ('after psf->dataend was set to the end of the audio' if ok else
+                   'without recording psf->dataend: the header written next counts them as audio data'), None)
+    ctx.require(n_ca >= 1, 'no close hook that appends bytes found')
+
     # ------------------------------------------------------------------ DATALEN-IDIOM
     ctx.rule('DATALEN-IDIOM', 'every codec reader init (*_init / *_reader_init) that turns psf->datalength into a block or frame count first re-derives it from the end of the audio data: an assignment '
              '`psf->datalength = psf->dataend ... - psf->dataoffset` precedes the first use (the container parser counts the pad byte of an odd data chunk into datalength; with 65-byte '
